@@ -20,9 +20,11 @@ def configs(tier, known):
         else:
             out.append(dict(kind=kind, n=3, cfg=dict(CFG, read=True), hidden=True, d=3, persistent=P2, assertions=0,
                             judge="c03", extra=extra, only_pre_first=True))
-            out.append(dict(kind=kind, n=4, cfg=dict(CFG), hidden=kind != "node", d=2, persistent=P2, assertions=1,
+            out.append(dict(kind=kind, n=4, cfg=dict(CFG), hidden=False, d=2, persistent=P2, assertions=1,
                             judge="c03", extra=extra, only_pre_first=True))
             if kind != "node":
+                out.append(dict(kind=kind, n=4, cfg=dict(CFG, read=True), hidden=True, d=1, persistent=P2, assertions=0,
+                                judge="c03", extra=extra, only_pre_first=True))
                 out.append(dict(kind=kind, n=5, cfg=dict(CFG, extras=False, L=3), hidden=False, d=1, persistent=P2,
                                 assertions=0, judge="c03", extra=extra, only_pre_first=True))
     for kind, fl in (("mixin", "tree"), ("light", "loop"), ("mixin", "loop"), ("light", "tree")) + ((("node", "value"), ("mixin", "attr")) if tier == "thorough" else ()):
